@@ -145,6 +145,13 @@ def make_fake(DI, st_mod):
         def __len__(self):
             return self.a.shape[0]
 
+        # methods of ImageBatch that other methods call on self
+        def upsample(self, *a, **k):
+            return DI.ImageBatch.upsample(self, *a, **k)
+
+        def downsample(self, *a, **k):
+            return DI.ImageBatch.downsample(self, *a, **k)
+
         def _make_instance(self, data=None, grid=None, **kw):
             return ("instance", data, tuple(grid) if isinstance(grid, (tuple, list)) else (grid,))
     return FakeBatch
@@ -224,6 +231,10 @@ INTERP_CASES = [
     ("down_neg_nac", (2, 3), False, "downsample", (-1,), {}),
     ("down_neg_flag", (2, 3), True, "downsample", (-1,), dict(align_corners=False)),
     ("resize3", (2, 3, 4), False, "resize", ((5, 4, 3),), {}),
+    # fractional grid size (5 samples downsampled once: 3 samples, size attribute 2.5): the grid returns to 5 samples, the data
+    # must be resized to the GRID's size (F.interpolate is called again with that size), not doubled
+    ("up_fractional", (2, 3), True, "upsample", (1,), dict(size_attr=(2.5, 2))),
+    ("up_fractional_nac", (2, 3), False, "upsample", (1,), dict(size_attr=(2.5, 2))),
 ]
 
 
@@ -301,6 +312,10 @@ def generate(loader):
             g = mk_grid(G.Grid, D, align=flag)
             # the grid's size attribute must be the tensor shape for these methods: concrete lattice, symbolic spacing etc.
             g._size = st.Tensor(np.array([E.const(n) for n in reversed(shape)], dtype=object))
+            kwargs = dict(kwargs)
+            size_attr = kwargs.pop("size_attr", None)
+            if size_attr is not None:
+                g._size = st.Tensor(np.array([E.const(n) for n in size_attr], dtype=object))
             fb = Fake(sym_image(shape), [g])
             calls = []
 
@@ -321,9 +336,9 @@ def generate(loader):
                 st.ASSUME_ALLCLOSE = False
                 del st.ALLCLOSE_LOG[:]
             data, grids = res[1], res[2]
-            if len(calls) != 1 or not calls[0]["same"]:
-                raise TraceError(f"{name}: F.interpolate not called exactly once on the unmodified data")
-            c = calls[0]
+            if not calls or not calls[-1]["same"] or (size_attr is None and len(calls) != 1):
+                raise TraceError(f"{name}: the returned data is not one F.interpolate call on the unmodified data")
+            c = calls[-1]
             if c["mode"] not in ("bilinear", "trilinear") or c["align_corners"] not in (True, False):
                 raise TraceError(f"{name}: F.interpolate mode / align_corners {c['mode']} {c['align_corners']}")
             if tuple(data.shape[2:]) != c["size"]:
